@@ -136,7 +136,8 @@ class C17(Check):
                    "only the four list-valued statistics types are sent with REPLY_MORE (others: the code discards them by design; compared with the model, not judged by the oracle)",
                    "entry decoding/encoding is exact for the generated entries (C01); entries that do not re-pack to their own bytes are not generated"]
     rule = ("case = one connection history on bytes: features reply (0-4 ports), optional early port statuses, then up to 14 messages among port status (3 reasons x 4 numbers x 3 names x 2 addresses x 2 configs), "
-            "second features reply, statistics parts (6 types, bodies 0..12 entries cut into 1..6 parts, up to 3 requests interleaved, same type/other xid and same xid/other type), 9 other message kinds, port statuses before the features reply; corpus = D17/D18 witnesses, all port-status "
+            "second features reply, statistics parts (6 types, bodies 0..12 entries cut into 1..6 parts, up to 3 requests interleaved, same type/other xid and same xid/other type), 9 other message kinds, port statuses before the features reply; modes (HARDENING.md): rare values (port 0 / 0xff00 / 0xfffe / 0xffff, empty / numeric / 16-byte / non-ASCII names, zero / broadcast address, xids 0, 255..257, 2^31, 2^32-1), "
+            "several messages per read, a second connection alive at the same time with the same numbers / names / request ids, listeners that raise; sweeps of the reason byte (0..255), the stats type selector and the flag bits; corpus = D17/D18 witnesses, all port-status "
             "sequences to length 3 (quick) / 4 (thorough) over a 2x2x2 scope, all partitions of short bodies; non-trivial = a port message changed a view or a reply had >=2 parts or requests overlapped")
     coverage_cases = 10 ** 6          # every case runs under the line tracer
     _import_counted = ()
@@ -521,7 +522,7 @@ class C17(Check):
         return {"features": feat, "pre": pre, "early": early, "msgs": msgs, "q": Q_FULL}
 
     def generate(self, rng, tier):
-        n = 1100 if tier == "quick" else 10000
+        n = 900 if tier == "quick" else 7000
         for i in range(n):
             mode = [None, None, "rare", "groups", "peer", None, "rare", "groups", "peer", "hostile"][(i // 2) % 10]
             yield self._case(rng, "ports" if i % 2 == 0 else ("stats" if i % 10 != 9 else "weird"), mode)
